@@ -12,6 +12,41 @@ SPLITTER_VALUES = [
 ]
 
 
+class StrWithOwnStr(str):
+    """a str subclass whose str() is not its characters (like a `class Country(str, Enum)` member)"""
+
+    def __str__(self):
+        return "Country." + str.__str__(self).upper()
+
+
+class IntWithOwnStr(int):
+    def __str__(self):
+        return "#%d" % int(self)
+
+
+class Opaque:
+    """an arbitrary object: its str() is whatever __str__ says"""
+
+    def __init__(self, s):
+        self.s = s
+
+    def __str__(self):
+        return self.s
+
+    def __repr__(self):
+        return "Opaque(%r)" % self.s
+
+
+def exotic_splitter_values():
+    """values whose str() differs from what a shortcut (isinstance(v, str), '%d' % v, repr) would produce; the published
+    scheme says str()"""
+    from decimal import Decimal
+    from fractions import Fraction
+
+    return [StrWithOwnStr("us"), StrWithOwnStr(""), IntWithOwnStr(7), Opaque("u-1"), Opaque(""), Decimal("1.10"), Decimal("1E+3"),
+            Fraction(1, 3), Fraction(4, 2), b"bytes", bytearray(b"ba"), (1, "a"), [1, 2], {"k": 1}, frozenset([1]), range(3), 1 + 2j]
+
+
 def _exotic_numbers(v):
     """the same neighbourhood in number types a caller may well pass: Decimal and Fraction compare exactly with ints and
     floats in Python, so the reference semantics are defined for them"""
